@@ -134,6 +134,11 @@ def impl_run(case):
         return {'ops': [], 'res': W.guarded(lambda: units[op['u']] == units[op['v']])}
     if o == 'sum':
         import quantity
+        if 'start' in op:
+            # quantity.sum(items, start): the start value is added first
+            st = operand(op['start']) if op['start'][0] == 'q' else _num(op['start'][1])
+            xs = [operand(s) for s in op['xs']]
+            return {'ops': seen, 'res': W.guarded(lambda: quantity.sum(iter(xs), st))}
         xs = [operand(s) for s in op['xs']]
         return {'ops': seen, 'res': W.guarded(lambda: quantity.sum(xs))}
     if o == 'sorted':
@@ -233,7 +238,9 @@ def coq_case(case, r):
         t = f"QUnitEq {views.coq(op['u'])} {views.coq(op['v'])}"
     elif o == 'sum':
         qs = []
-        for s in op['xs']:
+        if 'start' in op and op['start'][0] != 'q':
+            return None             # a plain-number start: TypeError, the oracle's business
+        for s in ([op['start']] if 'start' in op else []) + op['xs']:
             a, u = qv(s)
             qs.append(f"(mkQty {cq(a)} {u})")
         t = f"QSum {clist(qs)}"
